@@ -3,6 +3,7 @@
    (keep_model_order).  The spelling options are the subject of C13's theorems (model/TypeHint.v). *)
 From DMCG Require Import Schema SchemaProofs KeepOrder KeepOrderProofs.
 From Coq Require Import List Permutation.
+From DMCG Require TypeHint TypeDen HintImports SpellingProofs.
 Import ListNotations.
 Open Scope N_scope.
 
@@ -33,6 +34,13 @@ Theorem C14_keep_order_bases_first :
   forall fuel imported ms r, keep_order fuel imported ms = Some r -> bases_first imported (removelast r) = true.
 Proof. exact keep_order_bases_first. Qed.
 
+(* the collection-name options (--use-standard-collections, --use-generic-container-types) are representation only at
+   the level of annotations, for EVERY IR tree whose own names are not container names: two option vectors that agree
+   on the union style give annotations with the same spelling-free normal form (= C13_same_union_style_same_meaning) *)
+Theorem C14_container_names_same_meaning :
+  forall o1 o2 t, HintImports.clean_dt t = true -> TypeHint.uo o1 = TypeHint.uo o2 -> TypeDen.meaning o1 t = TypeDen.meaning o2 t.
+Proof. exact SpellingProofs.meaning_same_union_style. Qed.
+
 Example C14_place_free_nonvacuous :
   place_free PTop (SObj [(of_string "a", (true, SArr (SInt {| c_min := Some 2%Z; c_max := None; c_xmin := XNone; c_xmax := XNone; c_mult := None |}) (Some 1) (Some 3)));
                          (of_string "b", (false, SAny [SStr (Some 1) None; SMap SBool]))] true) = true.
@@ -45,3 +53,4 @@ Print Assumptions C14_constraint_style_same_tree.
 Print Assumptions C14_constraint_style_refuted.
 Print Assumptions C14_keep_order_permutation.
 Print Assumptions C14_keep_order_bases_first.
+Print Assumptions C14_container_names_same_meaning.
